@@ -14,6 +14,7 @@ import (
 	"sort"
 	"strings"
 	"time"
+	"unsafe"
 
 	"github.com/glycerine/zygomys/v9/zygo"
 	"verif/harness/lib"
@@ -49,6 +50,12 @@ func (r *goRender) val(v reflect.Value) string {
 		return "L[" + strings.Join(parts, ",") + "]"
 	case reflect.Struct:
 		if v.Type() == timeType {
+			if !v.CanInterface() { // reached through an unexported field: read it in place
+				if !v.CanAddr() {
+					return "T?"
+				}
+				v = reflect.NewAt(v.Type(), unsafe.Pointer(v.UnsafeAddr())).Elem()
+			}
 			t := v.Interface().(time.Time)
 			if t.IsZero() {
 				return "Tz"
@@ -507,7 +514,19 @@ func main() {
 		s := regsList[g.r.Intn(len(regsList))]
 		switch k % 12 {
 		case 10, 11: // history: convert, hset, convert again
-			initial, steps := rn.genHistory(g, s)
+			var initial *rnode
+			var steps []hstep
+			if k%24 == 10 { // a Go method hands back a pointer owned by the record's Go object
+				var own []*sinfo
+				for _, x := range regsList {
+					if len(rn.returnMethods(x)) > 0 && rn.hasSelf(&rnode{tn: x.reg}) {
+						own = append(own, x)
+					}
+				}
+				initial, steps = rn.genAlias(g, own[g.r.Intn(len(own))])
+			} else {
+				initial, steps = rn.genHistory(g, s)
+			}
 			in, obs := rn.runHistory(initial, steps)
 			out.Case(in, obs, true, "stream:history", "op:hist", fmt.Sprintf("hist-steps:%d", len(steps)))
 		case 0, 1, 2: // valid, forward
